@@ -8,7 +8,8 @@ it a semantics:
   (`Local.buf` = bytes accepted by `f.write` that have not reached the file yet) and the result of its last
   `os.path.exists` (`Local.seen`);
 * `compile` turns the skeleton into the list of atomic effects of one call: `openTrunc tmp`, one `collect i` per
-  collector of the registry (`generate_latest` runs them in order; each may raise), one `write` per piece the OS / the
+  collector of the registry (`generate_latest` runs them in order; each may raise) followed by `encode` (the final
+  `.encode('utf-8')` of the joined text; may raise), one `write` per piece the OS / the
   buffered writer splits `f.write(data)` into — every piece carries a flag saying whether it reaches the file at
   `write()` time or stays buffered until `close()`; all-true is an unbuffered writer, all-false a fully deferred one —
   `close`, `rename tmp target`; every effect is annotated with the handle the `with` statement closes when an exception
@@ -78,7 +79,8 @@ def catches (name : List Char) (c : ExcClass) : Bool :=
 
 inductive Eff
   | openTrunc (p : Path)                        -- `open(p, 'wb')`: p exists and is empty afterwards
-  | collect (i : Nat)                           -- collector `i` renders its families (no file effect; may raise)
+  | collect (i : Nat)                           -- collector `i` runs and its families are rendered (no file effect; may raise)
+  | encode                                      -- `''.join(output).encode('utf-8')` at the end of generate_latest (may raise)
   | write (p : Path) (c : Content) (flush : Bool) -- one piece of `f.write(data)` on the handle opened at `p`
   | close (p : Path)                            -- flush what is buffered, close the handle
   | rename (src dst : Path)                     -- atomic: `dst` switches to the full content of `src`, `src` disappears
@@ -103,6 +105,7 @@ structure Cfg where
 def applyNormal : Eff → Cfg → Cfg
   | .openTrunc p, c => { fs := c.fs.set p [], loc := { c.loc with buf := [] } }
   | .collect _, c => c
+  | .encode, c => c
   | .write p x fl, c =>
       if fl then { fs := c.fs.append p (c.loc.buf ++ x), loc := { c.loc with buf := [] } }
       else { c with loc := { c.loc with buf := c.loc.buf ++ x } }
@@ -162,7 +165,8 @@ def Params.res (P : Params) : PathRef → Path
 def compile (P : Params) : Option Path → List Sk → List (Eff × Option Path)
   | _, [] => []
   | _, .openWith p _ :: r => (.openTrunc (P.res p), none) :: compile P (some (P.res p)) r
-  | w, .generate :: r => ((List.range P.collectors.length).map fun i => (Eff.collect i, w)) ++ compile P w r
+  | w, .generate :: r =>
+      ((List.range P.collectors.length).map fun i => (Eff.collect i, w)) ++ (Eff.encode, w) :: compile P w r
   | some h, .writeData :: r => (P.chunks.map fun c => (Eff.write h c.1 c.2, some h)) ++ compile P (some h) r
   | none, .writeData :: r => compile P none r
   | some h, .endWith :: r => (.close h, none) :: compile P none r
